@@ -28,14 +28,18 @@ struct elem_t {
   elem_t(const elem_t& o) : v(o.v) {}
   elem_t& operator=(const elem_t& o) { v = o.v; return *this; }
 };
+#if BOUNDED
+typedef concurrent_bounded_queue<elem_t> queue_t;   // header part is real; the three r1:: monitor entry points are the external boundary
+#else
 typedef concurrent_queue<elem_t> queue_t;
+#endif
 static_assert(queue_t::queue_representation_type::items_per_page == (ELEM == 1 ? 1 : ELEM == 2 ? 2 : 32), "page class");
 
 // observers (defined in the harness; each call is one atomic visible step of the calling model thread)
 extern "C" void vp_inv(int tid, int slot, int kind, unsigned val);      // operation invoked
 extern "C" void vp_res(int tid, int slot, int ok, unsigned val);        // operation responded (ok: pop success; val: popped value)
 
-enum { OP_NONE = 0, OP_PUSH = 1, OP_TRYPOP = 2 };
+enum { OP_NONE = 0, OP_PUSH = 1, OP_TRYPOP = 2, OP_POP = 3, OP_TRYPUSH = 4 };   // 3,4: concurrent_bounded_queue only (push/pop block there)
 
 static inline void do_op(queue_t* q, int tid, int slot, int op, unsigned val) {
   if (op == OP_PUSH) {
@@ -49,6 +53,19 @@ static inline void do_op(queue_t* q, int tid, int slot, int op, unsigned val) {
     bool ok = q->try_pop(e);
     vp_res(tid, slot, ok, ok ? e.v : 0);
   }
+#if BOUNDED
+  else if (op == OP_POP) {
+    elem_t e; e.v = 0;
+    vp_inv(tid, slot, OP_POP, 0);
+    q->pop(e);
+    vp_res(tid, slot, 1, e.v);
+  } else if (op == OP_TRYPUSH) {
+    elem_t e; e.v = val;
+    vp_inv(tid, slot, OP_TRYPUSH, val);
+    bool ok = q->try_push(e);
+    vp_res(tid, slot, ok, val);
+  }
+#endif
 }
 
 // thread body: up to two operations, kinds concrete per scenario (constants passed by the harness)
@@ -76,6 +93,12 @@ extern "C" void vp_thr_drain(queue_t* q, int n) { drain<NDRAIN>(q, n); }
 // sequential helpers: build the pre-state with the real operations, inspect the final state
 extern "C" unsigned long vp_q_sizeof() { return sizeof(queue_t); }
 extern "C" void vp_q_ctor(queue_t* q) { new (q) queue_t(); }
+#if BOUNDED
+extern "C" void vp_q_set_capacity(queue_t* q, long c) { q->set_capacity(c); }
+extern "C" long vp_q_capacity(queue_t* q) { return q->capacity(); }
+// the wait predicate handed to r1::wait_bounded_queue_monitor (true = keep waiting); called by the harness stub of that function
+extern "C" int vp_call_pred(tbb::detail::d1::delegate_base* p) { return (*p)(); }
+#endif
 extern "C" void vp_q_push(queue_t* q, unsigned val) { elem_t e; e.v = val; q->push(e); }
 extern "C" int vp_q_try_pop(queue_t* q, unsigned* out) { elem_t e; e.v = 0; bool ok = q->try_pop(e); *out = e.v; return ok; }
 extern "C" long vp_q_size(queue_t* q) { return q->my_queue_representation->size(); }
